@@ -155,57 +155,19 @@ def d2_6(ctx):
     d2_10(ctx)
 
 
-@rule(P, "D2.7", "T-KEYS", floor=3)
+@rule(P, "D2.7", "T-WITNESS", floor=3)
 def d2_7(ctx):
-    """Bit writes: one read-modify-write packet per tag, every merged request id recorded, results fanned back out."""
-    fn = ctx.model.func(f"{LX}:LogixDriver._write_build_multi_requests")
-    f = fn.node
-    # the merge table: a dict whose values receive set_bit calls.  A packet is constructed only when the tag's key is not yet in
-    # the table, the table is read under the same key otherwise, and the packet is stored under that key.
-    g = ctx.cfg(f)
-    q = lambda e: src(e).replace('"', "'")  # noqa: E731
-    ctor = [n for n in g.nodes if n.kind == "stmt" and isinstance(n.ast, ast.Assign) and isinstance(n.ast.value, ast.Call) and call_name(n.ast.value) == "ReadModifyWriteRequestPacket"]
-    good, facts = False, {}
-    if len(ctor) == 1:
-        var = atom_name(ctor[0].ast.targets[0])
-        member = [(t, br) for t in g.nodes if t.kind == "test" and isinstance(t.ast, ast.Compare) and len(t.ast.ops) == 1 and isinstance(t.ast.ops[0], (ast.In, ast.NotIn)) and isinstance(t.ast.comparators[0], ast.Name)
-                  for br in (True, False) if g.branch_dominates(t, br, ctor[0]) and br == isinstance(t.ast.ops[0], ast.NotIn)]
-        if len(member) == 1:
-            t = member[0][0]
-            table, key = t.ast.comparators[0].id, q(t.ast.left)
-            stores = [n for n in g.nodes if n.kind == "stmt" and isinstance(n.ast, ast.Assign) and isinstance(n.ast.targets[0], ast.Subscript) and atom_name(n.ast.targets[0].value) == table]
-            reuse = [n for n in g.nodes if n.kind == "stmt" and isinstance(n.ast, ast.Assign) and isinstance(n.ast.value, ast.Subscript) and atom_name(n.ast.value.value) == table and q(n.ast.value.slice) == key and atom_name(n.ast.targets[0]) == var]
-            reuse_ok = len(reuse) == 1 and g.branch_dominates(t, not member[0][1], reuse[0])
-            store_ok = len(stores) == 1 and q(stores[0].ast.targets[0].slice) == key and atom_name(stores[0].ast.value) == var
-            # the store is passed on every non-exceptional path from the constructor to the next iteration / loop exit that
-            # also passes set_bit (a packet whose first bit was refused need not be registered)
-            sbn = [n for n in g.nodes if n.kind == "stmt" and any(isinstance(c, ast.Call) and isinstance(c.func, ast.Attribute) and c.func.attr == "set_bit" and atom_name(c.func.value) == var for c in walk(n.ast))]
-            reach_ok = False
-            if store_ok and len(sbn) == 1:
-                heads = set(g.nodes_of(next(x for x in walk(f) if isinstance(x, ast.For)).iter)) if any(isinstance(x, ast.For) for x in walk(f)) else set()
-                wit = g.must_pass({stores[0]}, start=sbn[0], sinks=heads | {g.exit}, avoid_edges=lambda a_, b_, lab: lab == "exc")
-                reach_ok = wit is None
-            facts = {"table": table, "key": key, "reuse": reuse_ok, "store": store_ok, "registered-after-set_bit": reach_ok}
-            good = key == "tag_data['plc_tag']" and reuse_ok and store_ok and reach_ok
-    ctx.check(good, ckey(fn, "one-packet-per-tag"), ctor[0].ast if ctor else f, "bit writes are merged per plc_tag into one read-modify-write packet", f"bit writes to one tag are not merged into a single read-modify-write request keyed by plc_tag: {facts}", **{k: str(v) for k, v in facts.items()})
-    sb = [c for c in walk(f) if isinstance(c, ast.Call) and isinstance(c.func, ast.Attribute) and c.func.attr == "set_bit"]
-    good = len(sb) == 1 and [src(a).replace('"', "'") for a in sb[0].args] == ["bit", "tag_data['value']", "tag_data['request_id']"]
-    ctx.check(good, ckey(fn, "set_bit-args"), sb[0] if sb else f, "set_bit(bit, value, request_id) for every merged request", "set_bit is not called with (bit, value, request_id) of the merged request")
-    rmw = ctx.model.cls(f"{PL}:ReadModifyWriteRequestPacket")
-    s = rmw.methods["set_bit"]
-    rid = s.args.args[3].arg
-    good = any(isinstance(c, ast.Call) and attr_path(c.func) == "self._request_ids.append" and atom_name(c.args[0]) == rid for c in walk(s))
-    ctx.check(good, ckey(rmw.key + ".set_bit", "records-id"), s, "each merged request id is recorded", "set_bit does not record the request id: its result cannot be reported")
-    w = ctx.model.func(f"{LX}:LogixDriver.write")
-    good = False
-    for n in walk(w.node):
-        if isinstance(n, ast.For) and atom_name(n.iter) == "requests":
-            for i in walk(n):
-                if isinstance(i, ast.If) and isinstance(i.test, ast.Call) and call_name(i.test) == "isinstance" and atom_name(i.test.args[1]) == "ReadModifyWriteRequestPacket":
-                    pop = [c for c in walk(i) if isinstance(c, ast.Call) and attr_path(c.func) == "write_results.pop" and attr_path(c.args[0]) == "r.request_id"]
-                    fan = [l for l in walk(i) if isinstance(l, ast.For) and attr_path(l.iter) == "r._request_ids" and any(isinstance(a, ast.Assign) and isinstance(a.targets[0], ast.Subscript) and atom_name(a.targets[0].value) == "write_results" and atom_name(a.targets[0].slice) == atom_name(l.target) for a in walk(l))]
-                    good = len(pop) == 1 and len(fan) == 1
-    ctx.check(good, ckey(w, "fan-out"), w.node, "the packet's result is copied to every merged request id", "the read-modify-write result is not fanned out to all merged requests")
+    """Bit writes: one read-modify-write packet per tag, every merged request id recorded, results fanned back out.  Decided by
+    folding the write builders on witness requests (several bits of one tag share one packet, which receives exactly each
+    request's bit, value and id: D2.12), the packet's bookkeeping on witness bits (D2.11: every id recorded, a refused bit leaves
+    the shared packet intact) and `write` on witness results (D2.13: the packet's result is copied to every merged id).  An earlier
+    form matched the merge table's membership test and the argument text of `set_bit`."""
+    from .driver import d2_12, d3_11
+    from .packets import _emit
+
+    d2_12(ctx)
+    _emit(ctx, {"bit-write", "bit-write-refusals"})
+    d3_11(ctx)
 
 
 @rule(P, "D2.8", "T-WITNESS", floor=2)
@@ -218,70 +180,17 @@ def d2_8(ctx):
     _structtag_rule(ctx)
 
 
-@rule(P, "D2.9", "T-RANGE", floor=2)
+@rule(P, "D2.9", "T-WITNESS", floor=2)
 def d2_9(ctx):
-    """Bit numbers are confined to the width of the mask fields before they are shifted into the masks: every `1 << bit` in
-    set_bit is dominated by tests that admit exactly 0 <= bit < 8 * mask size, the other side raising RequestError.  (The
-    masks are cut to the mask size, so a wider bit is silently dropped and reported as written; past bit 63 the 64-bit
-    encoder raises while the packet is built.)"""
-    import copy
+    """Bit numbers are confined to the width of the mask fields before they are shifted into the masks: for every integer width
+    (1, 2, 4, 8 bytes) `set_bit` accepts exactly 0 <= bit < 8 x width - and then the frame carries that one bit in the or-mask
+    (set) or cleared in the and-mask (clear) - and refuses every other bit number with RequestError.  (The masks are cut to the
+    mask size, so a wider bit would be silently dropped and reported as written; past bit 63 the 64-bit encoder raises while the
+    packet is built.)  Decided by folding the packet class on witness types x bit numbers around each border; an earlier form
+    evaluated the tests dominating `1 << bit` and alarmed when the range test was bound to a local first."""
+    from .packets import _emit
 
-    rmw = ctx.model.cls(f"{PL}:ReadModifyWriteRequestPacket")
-    s = rmw.methods["set_bit"]
-    bitp = s.args.args[1].arg
-    g = ctx.cfg(s)
-    shifts = [n for n in g.nodes if n.kind == "stmt" and n.ast is not None and any(isinstance(b, ast.BinOp) and isinstance(b.op, ast.LShift) and atom_name(b.right) == bitp for b in walk(n.ast))]
-    if not shifts:
-        ctx.undecided(ckey(rmw.key + ".set_bit", "bit-range"), s, "no `1 << bit` found")
-        return
-    # the width attribute: the one used to cut the mask fields in _setup_message
-    width_attr = None
-    for m_ in rmw.methods.values():  # (the masks may be cut in _setup_message or in a helper of the class)
-        for n in walk(m_):
-            if isinstance(n, ast.Subscript) and isinstance(n.slice, ast.Slice) and n.slice.upper is not None and (attr_path(n.slice.upper) or "").startswith("self."):
-                width_attr = attr_path(n.slice.upper)
-    if width_attr is None:
-        ctx.undecided(ckey(rmw.key + ".set_bit", "bit-range"), s, "mask width attribute not found in the packet class")
-        return
-
-    class Sub(ast.NodeTransformer):
-        def __init__(self, k):
-            self.k = k
-
-        def visit_Attribute(self, n):
-            return ast.copy_location(ast.Constant(self.k), n) if attr_path(n) == width_attr else self.generic_visit(n)
-
-    for i, use in enumerate(shifts):
-        conds = [(t, br) for t in g.nodes if t.kind == "test" and t.ast is not None and bitp in {x.id for x in walk(t.ast) if isinstance(x, ast.Name)} for br in (True, False) if g.branch_dominates(t, br, use)]
-        bad = None
-        for k in (1, 2, 4, 8):
-            for v in sorted({-1, 0, 1, 8 * k - 1, 8 * k, 8 * k + 1, 31, 32, 63, 64, 70}):
-                ok = True
-                for t, br in conds:
-                    r = ctx.folder.eval(Sub(k).visit(_clone(t.ast)), rmw.module, env={bitp: v})
-                    if r is UNKNOWN:
-                        ok = None
-                        break
-                    if bool(r) != br:
-                        ok = False
-                        break
-                if ok is None:
-                    bad = ("not evaluable", k, v)
-                    break
-                if ok != (0 <= v < 8 * k):
-                    bad = ("admitted" if ok else "refused", k, v)
-                    break
-            if bad:
-                break
-        raises_ok = all(branch_outcome(g, t, not br) == ({"RequestError"}, False) for t, br in conds)
-        key = ckey(rmw.key + ".set_bit", f"bit-range{'' if not i else i}")
-        if bad and bad[0] == "not evaluable":
-            ctx.undecided(key, use.ast, f"range tests {[src(t.ast) for t, _ in conds]} not evaluable")
-            continue
-        ctx.check(bad is None and bool(conds) and raises_ok, key, use.ast, f"`{src(use.ast)}` only for 0 <= {bitp} < 8 * {width_attr}; other bit numbers raise RequestError",
-                  (f"bit {bad[2]} is {bad[0]} for a {bad[1]}-byte type" if bad else "no range test" if not conds else "the refusing branch does not raise RequestError only")
-                  + f" before `{src(use.ast)}`: the masks are cut to {width_attr} bytes, so a bit outside the type is dropped yet reported as written (or overflows the 64-bit mask encoder while the packet is built)",
-                  tests=[src(t.ast) for t, _ in conds])
+    _emit(ctx, {"bit-range", "bit-write-refusals"})
 
 
 @rule(P, "D2.10", "T-WITNESS", floor=6)
